@@ -459,6 +459,114 @@ def p5(rep):
         raise AnalysisBroken("comsgReportFile groups messages by %s, which this rule does not know" % sorted(keys))
 
 
+def p9(rep):
+    """A position packs the GLOBAL (serial) line number; sposLine/sposFile decode it through the line table as
+    `file line = table.flno + (global - table.glno)`, which is right only while the file's own line counter and the serial counter
+    advance together between two table entries.  In include.c every increment of `fileState.lineNumber` is therefore followed, on
+    every path to the function's exit, by an increment of `inclSerialLineNo` (and conversely): a physical line that advances one
+    counter and not the other -- a line skipped by #if, say -- shifts every later diagnostic of the file."""
+    f = common.extract("include.c", all_trees=True, all_cfg=True)
+
+    def inc_of(what):
+        def pred(n):
+            if n["k"] == "UnaryOperator" and n["op"] in ("++", "post++"):
+                t = strip(n["c"][0])
+            elif n["k"] == "CompoundAssignOperator" and n["op"] == "+=" and const_value(n["c"][1]) == 1:
+                t = strip(n["c"][0])
+            else:
+                return False
+            if t is None:
+                return False
+            if what == "file":
+                return t["k"] == "MemberExpr" and t["n"] == "lineNumber"
+            return t["k"] == "DeclRefExpr" and t["n"] == "inclSerialLineNo"
+        return pred
+    n = 0
+    for name, fn in sorted(f.funcs.items()):
+        if "body" not in fn or not fn.get("file", "").endswith("include.c"):
+            continue
+        if not any(inc_of("file")(x) or inc_of("serial")(x) for x in walk(fn["body"])):
+            continue
+        cfg = common.CFG(fn)
+        for a, b, txt in (("file", "serial", "the file's line counter advances but the serial line number may not"),
+                          ("serial", "file", "the serial line number advances but the file's line counter may not")):
+            for bb, bj, node in cfg.events(inc_of(a)):
+                n += 1
+                key = "line-counters-in-step:%s:%s" % (name, a)
+                # the partner either follows on every path, or precedes it in the same straight-line run
+                after = cfg.path_avoiding(bb, None, inc_of(b), src_idx=bj) is None
+                before = any(inc_of(b)(e) for e in cfg.elems(bb)[:bj])
+                if after or before:
+                    rep.ok("P9", key)
+                else:
+                    rep.violation("P9", key, "include.c:%d (%s)" % (node["l"], name),
+                                  "%s: positions are decoded as table line + (global - table global), so every later diagnostic of "
+                                  "the file is reported as many lines too early as there were such lines (the excerpt shown is the "
+                                  "wrong text too), until the next #include return or #line" % txt)
+    rep.floor("line-counter increments in include.c", n, 2)
+
+
+def p10(rep):
+    """sposNew starts a new line-table segment -- which is what makes a message name the file it is in -- when the file name of
+    the next line differs from the previous entry's (fnameEqual -> osFnameDirEqual for the directory parts).  osFnameDirEqual
+    ignores leading "." components.  It must ignore a dot only when it IS a component: a step over a leading FCURDIR character
+    has to be conditional on the character after it (end of string or a separator), otherwise "../" and ".x/" lose their first
+    character too, "../foo.as" equals "foo.as", and an included file of the same name in the parent directory gets no segment:
+    its diagnostics carry the includer's name and a wrong line."""
+    f = common.extract("opsys.c", trees=["osFnameDirEqual"])
+    fn = f.func("osFnameDirEqual")
+    par = common.parents(fn["body"])
+    params = [p_["n"] for p_ in fn["params"]]
+    n = 0
+    for x in walk(fn["body"]):
+        if not (x["k"] == "UnaryOperator" and x["op"] in ("++", "post++")):
+            continue
+        v = strip(x["c"][0])
+        if v is None or v["k"] != "DeclRefExpr" or v["n"] not in params:
+            continue
+        conds = []
+        cur = x
+        while cur["id"] in par:
+            p_ = par[cur["id"]]
+            if p_["k"] in ("IfStmt", "WhileStmt") and p_["c"][0] is not cur and not any(y is cur for y in walk(p_["c"][0])):
+                conds.append(p_["c"][0])
+            cur = p_
+
+        def tests_first_dot(c):
+            for y in walk(c):
+                if y["k"] == "BinaryOperator" and y["op"] == "==" and const_value(y["c"][1]) == ord("."):
+                    l = strip(y["c"][0])
+                    if l is not None and ((l["k"] == "UnaryOperator" and l["op"] == "*" and (strip(l["c"][0]) or {}).get("n") == v["n"]) or
+                                          (l["k"] == "ArraySubscriptExpr" and (strip(l["c"][0]) or {}).get("n") == v["n"] and const_value(l["c"][1]) == 0)):
+                        return True
+            return False
+
+        def tests_next(c):
+            for y in walk(c):
+                if y["k"] == "ArraySubscriptExpr" and (strip(y["c"][0]) or {}).get("n") == v["n"] and const_value(y["c"][1]) == 1:
+                    return True
+                if y["k"] == "UnaryOperator" and y["op"] == "*":
+                    inner = strip(y["c"][0])
+                    if inner is not None and inner["k"] == "BinaryOperator" and inner["op"] == "+" and \
+                            (strip(inner["c"][0]) or {}).get("n") == v["n"] and const_value(inner["c"][1]) == 1:
+                        return True
+            return False
+        # only the step that skips the dot itself (the innermost enclosing condition tests the first character)
+        if not conds or not tests_first_dot(conds[0]):
+            continue
+        n += 1
+        key = "curdir-component-only:%s" % v["n"]
+        if any(tests_next(c) for c in conds):
+            rep.ok("P10", key)
+        else:
+            rep.violation("P10", key, "opsys.c:%d (osFnameDirEqual)" % x["l"],
+                          "a leading `.` of %s is skipped without looking at the character after it: `../` and `.x/` are stripped as "
+                          "well, so \"../\", \"./\" and \"\" are the same directory and `../foo.as` included from `foo.as` is taken for "
+                          "the same file: no new line-table segment is started, its diagnostics carry the includer's name and line "
+                          "numbers that run on" % v["n"])
+    rep.floor("steps over a leading current-directory marker", n, 2)
+
+
 def run(tier, only=None):
     rep = common.Report("C15", tier, EXPLANATION)
     P = p1(rep)
@@ -475,5 +583,7 @@ def run(tier, only=None):
     p4(rep, fi)
     p5(rep)
     p6(rep)
+    p9(rep)
+    p10(rep)
     rep.analysed_count("translation units", 3)
     return rep
